@@ -137,6 +137,17 @@ macro_rules! wrapper {
         self.0.load(Ordering::Relaxed)
       }
 
+      /// Exclusive access, as on the core type: no other thread can observe it, so no hook fires.
+      #[inline]
+      pub fn get_mut(&mut self) -> &mut $ty {
+        self.0.get_mut()
+      }
+
+      #[inline]
+      pub fn into_inner(self) -> $ty {
+        self.0.into_inner()
+      }
+
       #[inline]
       fn access(&self, kind: Kind, order: Ordering, fail_order: Ordering, operand: u64, expected: u64, loc: &'static core::panic::Location<'static>) -> Access {
         Access {
